@@ -159,7 +159,7 @@ PLAN["C09"] = {
     "assumptions": STACK_ASSUME + ["SignalToAdd / VerifyReplicaAlive are answered from the script (recorded) in the scripted tier; Create/Start use the real remote factory and replicas"],
     "technique": "model-based property testing (rapid) of the registration/start protocol with a scripted backend factory; end-to-end restart check against the data model",
     "quick": {"wall": 150, "tests": [
-        {"run": "TestC09", "shards": 12, "checks": 60, "timeout": 120},
+        {"run": "TestC09", "shards": 12, "checks": 120, "timeout": 130},
         {"run": "TestC09EndToEnd", "shards": 4, "checks": 25, "timeout": 120},
     ]},
     "thorough": {"wall": 900, "tests": [
@@ -259,3 +259,9 @@ PLAN["C16"]["thorough"]["tests"].append({"run": "TestC16Controller", "shards": 3
 PLAN["C16"]["rule"] += ("; TestC16Controller: stack programs (RF 1-3) with Controller.Resize(name,size) - grow, same size, shrink, wrong volume name, unparsable size - interleaved with writes, reads, "
                         "snapshots, replica loss and rebuild: a refused request changes neither the controller's nor any replica's size; after a grow every attached replica reports and persists "
                         "the new size, the tail of the added range accepts a write and the added range reads zero through the controller, all earlier data still reads back")
+
+PLAN["C10"]["quick"]["tests"][0]["shards"] = 9
+PLAN["C10"]["quick"]["tests"].append({"run": "TestC10Promotion", "shards": 4, "checks": 30, "timeout": 100})
+PLAN["C10"]["thorough"]["tests"][0]["shards"] = 9
+PLAN["C10"]["thorough"]["tests"].append({"run": "TestC10Promotion", "shards": 4, "checks": 900, "timeout": 840})
+PLAN["C10"]["rule"] += "; TestC10Promotion: stack programs with faulty writes and rebuilds, promoted replica's counter = source's at every promotion, all RW replicas report the same count at the end"
